@@ -122,6 +122,39 @@ def run(ctx):
                                                       "tagged lightweight and annotated, followed by a long linear history", "run": k},
                                                      expected=str(dl[0][0] if dl else b"")[:300], observed=str(dl[0][1] if dl else b"")[:300]))
                 break
+        # (c'') ties: eight annotated tags on one commit and eight same-second sibling branches sharing the biggest blob —
+        # which of them is cited must not depend on anything but the input
+        tie = S.Scenario()
+        hb = tie.add({"kind": "blob", "data": b"B" * 40000})
+        base_t = tie.add({"kind": "tree", "entries": [(0o100644, b"big.bin", hb)]})
+        base_c = tie.add({"kind": "commit", "tree": base_t, "parents": [], "date": 1600000000})
+        for i in range(8):
+            g = tie.add({"kind": "tag", "target": base_c, "name": b"t%d" % i})
+            tie.refs.append((b"refs/tags/t%d" % i, g))
+            sb = tie.add({"kind": "blob", "data": b"s%d" % i})
+            tt = tie.add({"kind": "tree", "entries": [(0o100644, b"big.bin", hb), (0o100644, b"small", sb)]})
+            cc = tie.add({"kind": "commit", "tree": tt, "parents": [base_c], "date": 1600000100, "msg": b"b%d\n" % i})
+            tie.refs.append((b"refs/heads/b%d" % i, cc))
+        tie.compute()
+        d = os.path.join(eng.scratch, "ties")
+        tie.materialise(d)
+        for fmt in (["-v", "--no-progress"], ["--json", "--no-progress"], ["--json", "--json-version=2", "--no-progress"]):
+            first = None
+            for k in range(10 if quick else 40):
+                rc, out, err = S.run_sizer(ctx["bins"]["sizer"], d, fmt, env=S.clean_env({"GOMAXPROCS": str([16, 1, 2, 4][k % 4])}))
+                res.case(("ties", tuple(fmt), k), True)
+                if rc != 0:
+                    res.violations.append(vlib.Violation("run failed: %s" % err[:200].decode("latin1"), {"args": fmt}))
+                    break
+                if first is None:
+                    first = out
+                elif out != first:
+                    dl = [(a, b) for a, b in zip(first.split(b"\n"), out.split(b"\n")) if a != b][:1]
+                    res.violations.append(vlib.Violation("two runs on the same repository produced different stdout",
+                                                         {"args": fmt, "repository": "8 annotated tags on one commit, 8 same-second branches sharing the biggest blob", "run": k},
+                                                         expected=str(dl[0][0] if dl else b"")[:300], observed=str(dl[0][1] if dl else b"")[:300]))
+                    break
+        shutil.rmtree(d, ignore_errors=True)
         # (d)
         race = vlib.build_go(race=True)["sizer"]
         nraces = 0
